@@ -22,6 +22,7 @@ type TapePicker struct {
 	nextPrio int
 	rr       int
 	Fair     bool // when set (drain phases): round robin, no early clock advance
+	NoEarly  bool // never fire timers early
 	Switches int
 }
 
@@ -51,7 +52,7 @@ func (p *TapePicker) Spawned(g *rt.G) {
 }
 
 func (p *TapePicker) AdvanceEarly() bool {
-	if p.Fair || p.advN == 0 {
+	if p.Fair || p.NoEarly || p.advN == 0 {
 		return false
 	}
 	return p.T.Chance(p.advN, 200)
